@@ -59,8 +59,22 @@ def run_semantic(pkg):
     fn = pkg.method("Graph", "optimize")
     where = "%s:%d" % (fn._gs_module, fn.lineno)
     ts = optsem.tasks("", "optimize-semantics", where)
+    results = run_tasks(pkg, ts)
+    # size / iteration thresholds in the analysed code: aim scenarios at both sides of each constant
+    size_c, iter_c = set(), set()
+    for r in results:
+        if r.get("status") == "error":
+            for m_ in re.finditer(r"(len\(\.\.\.\)|a collection size|an iteration counter)[^;]*?(?:compared with|modulo / divided by) (\d+)", r.get("detail", "")):
+                (iter_c if "iteration" in m_.group(1) else size_c).add(int(m_.group(2)))
+    size_c = sorted(c for c in size_c if 2 <= c <= 120)[:2]
+    iter_c = sorted(c for c in iter_c if 1 <= c <= 3)[:2]
+    if size_c or iter_c:
+        only_thresholds = all(r.get("status") != "error" or "a finite scenario cannot speak for larger inputs" in r.get("detail", "") for r in results)
+        if only_thresholds:
+            ts = optsem.directed_tasks("", "optimize-semantics", where, size_c, iter_c)
+            results = run_tasks(pkg, ts)
     out = []
-    for t, r in zip(ts, run_tasks(pkg, ts)):
+    for t, r in zip(ts, results):
         kinds = set(re.findall(r"\[(solve|pose|fixed|stopping|report|verbose|state)\]", r["detail"])) if r["status"] == "violation" else set()
         if r["status"] == "violation" and not kinds:
             kinds = {"solve", "pose", "fixed", "stopping", "report", "verbose", "state"}     # raises, non-exact operations, ...
